@@ -27,7 +27,8 @@ pub fn def() -> CheckDef {
         level: "exploration",
         rule: "the hctl-model-checker binary is run on random small networks written as .aeon / .bnet / .sbml, formula files with comment lines, \
                blank lines, indented comments, leading/trailing blanks and tabs, CRLF and a missing final newline, every print option, with and \
-               without -o, with and without -e (context archive written for the graph size the tool will choose). Observed: exit status, \
+               without -o, with and without -e (context archive written for the graph size the tool will choose); one case in twenty uses a network of 64..90 \
+               variables with cheap formulae, so that the printed counts exceed 2^64. Observed: exit status, \
                stderr, per-formula `N results in total / N unique colors / N unique states` in file order, the states listed in exhaustive mode \
                (ANSI codes stripped), the archived sets. Reference: the library's BATCH API on the same formula list and graph size. Error \
                inputs (missing / malformed model, missing formula file, invalid formula, unknown proposition, free variable, missing context \
@@ -50,6 +51,8 @@ pub fn def() -> CheckDef {
                 ("with_context_archive", 15 * m),
                 ("error_cases", 30 * m),
                 ("formula_blocks_compared", 100 * m),
+                ("wide_network_cases", 30 * m),
+                ("wide_blocks_with_count_of_2pow64_or_more", 10 * m),
             ]
         },
         run,
@@ -125,8 +128,198 @@ fn parse_blocks(stdout: &str) -> Result<Vec<Block>, String> {
 
 fn run(rng: &mut Rng, idx: u64, _tier: Tier) -> CaseOut {
     let dir = scratch_dir("c17", idx);
-    let out = run_inner(rng, &dir);
+    let out = if idx % 20 == 13 { wide_case(rng, &dir) } else { run_inner(rng, &dir) };
     let _ = std::fs::remove_dir_all(&dir);
+    out
+}
+
+/// A network with 64..90 variables (so that result / state counts exceed every machine integer) and cheap formulae
+/// (Boolean combinations, EX / AX of propositions): the printed counts and the archived sets against the library.
+fn wide_case(rng: &mut Rng, dir: &str) -> CaseOut {
+    let bins = std::env::var("VERIF_BINS").unwrap_or_else(|_| "/verif/target/repo-bins/release".to_string());
+    let exe = format!("{bins}/hctl-model-checker");
+    let n = rng.range(64, 90);
+    let inputs = rng.range(0, 3);
+    let mut aeon = String::new();
+    for i in inputs..n {
+        // one or two regulators, chosen among the neighbours on a ring
+        let a = (i + 1) % n;
+        let b = (i + rng.range(2, 5)) % n;
+        match rng.below(4) {
+            0 => aeon.push_str(&format!("v{a} -> v{i}\n$v{i}: v{a}\n")),
+            1 => aeon.push_str(&format!("v{a} -| v{i}\n$v{i}: !v{a}\n")),
+            2 => aeon.push_str(&format!("v{a} -> v{i}\nv{b} -> v{i}\n$v{i}: v{a} & v{b}\n")),
+            _ => aeon.push_str(&format!("v{a} -> v{i}\nv{b} -| v{i}\n$v{i}: v{a} | !v{b}\n")),
+        }
+    }
+    let bn0 = match BooleanNetwork::try_from(aeon.as_str()) {
+        Ok(b) => b,
+        Err(e) => {
+            let mut o = CaseOut::new(format!("wide|{aeon}"));
+            o.inconclusive(&format!("generated wide network not accepted: {e}"));
+            return o;
+        }
+    };
+    let mut format = *rng.pick(&["aeon", "bnet", "sbml"]);
+    let text = match format {
+        "bnet" => match bn0.to_bnet(false) {
+            Ok(t) => t,
+            Err(_) => {
+                format = "aeon";
+                bn0.to_string()
+            }
+        },
+        "sbml" => bn0.to_sbml(None),
+        _ => bn0.to_string(),
+    };
+    let model_path = format!("{dir}/model.{format}");
+    std::fs::write(&model_path, &text).unwrap();
+    let bn = match BooleanNetwork::try_from_file(&model_path) {
+        Ok(b) => b,
+        Err(e) => {
+            let mut o = CaseOut::new(format!("wide|{aeon}"));
+            o.inconclusive(&format!("file not readable: {e}"));
+            return o;
+        }
+    };
+    let names: Vec<String> = bn.variables().map(|v| bn.get_variable_name(v).clone()).collect();
+    let lit = |rng: &mut Rng| {
+        let v = rng.pick(&names).clone();
+        if rng.coin() { v } else { format!("~{v}") }
+    };
+    let count = rng.range(1, 3);
+    let mut texts: Vec<String> = Vec::new();
+    for _ in 0..count {
+        let t = match rng.below(7) {
+            0 => "true".to_string(),
+            1 => lit(rng),
+            2 => format!("{} & {}", lit(rng), lit(rng)),
+            3 => format!("EX {}", lit(rng)),
+            4 => format!("AX ({} | {})", lit(rng), lit(rng)),
+            5 => {
+                // a small set: many literals fixed
+                let m = rng.range(5, names.len());
+                names.iter().take(m).map(|v| if rng.coin() { v.clone() } else { format!("~{v}") }).collect::<Vec<_>>().join(" & ")
+            }
+            _ => format!("{} => EX {}", lit(rng), lit(rng)),
+        };
+        texts.push(t);
+    }
+    let formulae_path = format!("{dir}/formulae.txt");
+    let file = texts.join("\n") + "\n";
+    std::fs::write(&formulae_path, &file).unwrap();
+    let print_opt = *rng.pick(&["no-print", "summary", "summary", "with-progress"]);
+    let with_output = rng.coin() || print_opt == "no-print";
+    let output_path = format!("{dir}/out/results.zip");
+    let mut out = CaseOut::new(format!("wide|{aeon}|{file:?}|{print_opt}|{with_output}|{format}"));
+    out.count("wide_network_cases");
+    let mut args: Vec<String> = vec![model_path.clone(), formulae_path.clone(), "-p".to_string(), print_opt.to_string()];
+    if with_output {
+        args.push("-o".to_string());
+        args.push(output_path.clone());
+    }
+    let graph = match get_extended_symbolic_graph(&bn, 0) {
+        Ok(g) => g,
+        Err(e) => {
+            out.inconclusive(&format!("no graph for the wide network: {e}"));
+            return out;
+        }
+    };
+    let refs: Vec<&str> = texts.iter().map(|s| s.as_str()).collect();
+    let reference = match call(|| mc::model_check_multiple_formulae_dirty(refs.clone(), &graph)) {
+        Call::Ok(r) => r,
+        Call::Err(e) => {
+            out.inconclusive(&format!("library rejects the generated batch: {e}"));
+            return out;
+        }
+        Call::Panic(p) => {
+            out.inconclusive(&format!("library panicked on the generated batch: {p}"));
+            return out;
+        }
+    };
+    let res = match Command::new(&exe).args(&args).output() {
+        Ok(r) => r,
+        Err(e) => {
+            out.inconclusive(&format!("cannot start {exe}: {e}"));
+            return out;
+        }
+    };
+    let stdout = String::from_utf8_lossy(&res.stdout).to_string();
+    let stderr = String::from_utf8_lossy(&res.stderr).to_string();
+    let detail = |why: &str| {
+        J::obj(vec![
+            ("network_aeon", J::s(&aeon)),
+            ("variables", J::Int(n as i64)),
+            ("formulae", J::arr_str(&texts)),
+            ("arguments", J::arr_str(&args)),
+            ("model_format", J::s(format)),
+            ("stdout", J::s(&strip_ansi(&stdout).chars().take(1500).collect::<String>())),
+            ("stderr", J::s(&stderr.chars().take(600).collect::<String>())),
+            ("why", J::s(why)),
+        ])
+    };
+    if !res.status.success() || stderr.contains("panicked at") {
+        let loc = stderr.lines().find(|l| l.contains("panicked at")).and_then(|l| l.split("panicked at ").nth(1)).unwrap_or("").split(':').take(2).collect::<Vec<_>>().join(":");
+        out.violate(&format!("tool crashed: {loc} (valid input)"), format!("hctl-model-checker {:?} ended with status {:?}: {}", args, res.status.code(), stderr.lines().take(3).collect::<Vec<_>>().join(" | ")), detail("crash instead of a message"));
+        return out;
+    }
+    if print_opt != "no-print" {
+        let blocks = match parse_blocks(&stdout) {
+            Ok(b) => b,
+            Err(e) => {
+                out.violate("output format not understood", e.clone(), detail(&e));
+                return out;
+            }
+        };
+        if blocks.len() != texts.len() {
+            out.violate("wrong number of result blocks", format!("{} blocks for {} formulae", blocks.len(), texts.len()), detail("block count"));
+            return out;
+        }
+        for (i, b) in blocks.iter().enumerate() {
+            out.count("formula_blocks_compared");
+            if b.formula != texts[i] {
+                out.violate("formulae not evaluated in file order (or not trimmed)", format!("block {i} is for `{}`, line {i} of the file is `{}`", b.formula, texts[i]), detail("order"));
+                return out;
+            }
+            let r = &reference[i];
+            let expect = (r.approx_cardinality(), r.colors().approx_cardinality(), r.vertices().approx_cardinality());
+            if expect.0 >= 18446744073709551616.0 {
+                out.count("wide_blocks_with_count_of_2pow64_or_more");
+            }
+            if (b.total, b.colors, b.states) != expect {
+                out.violate(
+                    "printed counts differ from the library",
+                    format!("formula {i} `{}` on a network of {n} variables: tool prints {}/{}/{} (results/colours/states), library gives {}/{}/{}", texts[i], b.total, b.colors, b.states, expect.0, expect.1, expect.2),
+                    detail("counts"),
+                );
+                return out;
+            }
+        }
+    }
+    if with_output {
+        let loaded = match load_bdd_bundle(&output_path, graph.symbolic_context()) {
+            Ok(l) => l,
+            Err(e) => {
+                out.violate("output archive cannot be loaded", e.clone(), detail(&e));
+                return out;
+            }
+        };
+        for (i, r) in reference.iter().enumerate() {
+            match loaded.get(&format!("formula-{i}")) {
+                Some(set) if set.as_bdd() == r.as_bdd() => {}
+                Some(_) => {
+                    out.violate("archived set differs from the library result", format!("formula-{i} (`{}`)", texts[i]), detail("archive"));
+                    return out;
+                }
+                None => {
+                    out.violate("archived set missing", format!("formula-{i}; entries {:?}", loaded.keys().collect::<Vec<_>>()), detail("archive"));
+                    return out;
+                }
+            }
+        }
+        out.count("archives_compared");
+    }
+    out.nontrivial = false;
     out
 }
 
